@@ -46,7 +46,7 @@ function Dsc(o,n){ var d=Object.getOwnPropertyDescriptor(o,n); if(d===undefined)
 function NL(l){ if(l.length==0) return '-'; var r=[]; for(var i=0;i<l.length;i++) r.push(NAMES.indexOf(l[i])); return r.join('.'); }
 function Obs(i){ var o=O[i]; var ks=Object.keys(o), ns=Object.getOwnPropertyNames(o), fi=[]; for(var k in o) fi.push(k);
   var on=[NAMES[0],NAMES[1],NAMES[2]]; for(var j=0;j<ns.length;j++){ if(NAMES.indexOf(ns[j])!==0&&NAMES.indexOf(ns[j])!==1&&NAMES.indexOf(ns[j])!==2) on.push(ns[j]); }
-  var per=[]; for(var j=0;j<on.length;j++){ var n=on[j]; per.push(V(o[n])+'/'+B(n in o)+B(hop.call(o,n))+B(pie.call(o,n))+'/'+G(o,n)); }
+  var per=[]; for(var j=0;j<on.length;j++){ var n=on[j]; per.push(V(o[n])+'/'+B(n in o)+B(hop.call(o,n))+B(pie.call(o,n))+'/'+G(o,n)+((n==='0'&&(V(o[-0])!==V(o[n])||(-0 in o)!==(n in o)||hop.call(o,-0)!==hop.call(o,n)))?'!negzero':'')); }
   return B(Object.isExtensible(o))+B(Object.isSealed(o))+B(Object.isFrozen(o))+':'+NL(ks)+':'+NL(ns)+':'+NL(fi)+':'+per.join(','); }
 function Step(f){ var out; L=[]; try{ out=f(); }catch(e){ out=(e instanceof TypeError)?'T':'E:'+e.name; }
   var r=[out, L.length?L.join(','):'-']; for(var i=0;i<O.length;i++) r.push(Obs(i)); R.push(r.join('|')); }
@@ -133,6 +133,22 @@ func c07Name(s string) string {
 		panic("bad name " + s)
 	}
 	return c07Names[n]
+}
+
+// c07Key spells the property key of a bracket access / defineProperty call.  The name "0" (code 15) is also
+// written as the number -0 in three ways: ToString(-0) is "0" (9.8.1), so they all name the same property.
+func c07Key(code string, i int) string {
+	if code == "15" {
+		switch i % 4 {
+		case 1:
+			return "-0"
+		case 2:
+			return "(function(){var z=0;return -z;})()"
+		case 3:
+			return "Math.round(-0.4)"
+		}
+	}
+	return "'" + c07Name(code) + "'"
 }
 
 // c07Numeric: the name is "0" or "1" (codes 15, 16), which cannot follow a dot
@@ -323,7 +339,7 @@ func c07Script(toks []string) string {
 				strict = "'use strict';"
 			}
 			if alt || c07Numeric(f[3]) {
-				body = fmt.Sprintf("O[%s]['%s']=%s;return 'ok';", f[2], c07Name(f[3]), c07ValLit(f[4]))
+				body = fmt.Sprintf("O[%s][%s]=%s;return 'ok';", f[2], c07Key(f[3], i), c07ValLit(f[4]))
 			} else {
 				body = fmt.Sprintf("O[%s].%s=%s;return 'ok';", f[2], c07Name(f[3]), c07ValLit(f[4]))
 			}
@@ -332,12 +348,12 @@ func c07Script(toks []string) string {
 				strict = "'use strict';"
 			}
 			if c07Numeric(f[3]) {
-				body = fmt.Sprintf("return (delete O[%s]['%s'])?'t':'f';", f[2], c07Name(f[3]))
+				body = fmt.Sprintf("return (delete O[%s][%s])?'t':'f';", f[2], c07Key(f[3], i))
 			} else {
 				body = fmt.Sprintf("return (delete O[%s].%s)?'t':'f';", f[2], c07Name(f[3]))
 			}
 		case "D":
-			body = fmt.Sprintf("Object.defineProperty(O[%s],'%s',%s);return 'ok';", f[1], c07Name(f[2]), c07Desc(f[3:], i%6))
+			body = fmt.Sprintf("Object.defineProperty(O[%s],%s,%s);return 'ok';", f[1], c07Key(f[2], i), c07Desc(f[3:], i%6))
 			if ps := c07DescPartsOrNil(f[3:]); i%12 == 11 && len(ps) > 0 {
 				// the first field lives on Object.prototype while the call runs
 				kv := strings.SplitN(ps[0], ":", 2)
@@ -684,8 +700,44 @@ func implC07Map(fn, ents string) string {
 	return c07RunDirty(b.String())
 }
 
+var c07Recv = map[string][2]string{ // receiver expression, constructor for instanceof
+	"objectP": {"Object.prototype", "Object"}, "numberP": {"Number.prototype", "Number"}, "stringP": {"String.prototype", "String"},
+	"booleanP": {"Boolean.prototype", "Boolean"}, "functionP": {"Function.prototype", "Function"}, "null": {"null", ""}, "undefined": {"undefined", ""},
+}
+var c07PArg = map[string]string{"number": "5", "string": "'abc'", "boolean": "true", "undefined": "undefined", "null": "null", "missing": "",
+	"numObj": "new Number(1)", "strObj": "new String('s')", "boolObj": "new Boolean(true)", "plain": "({})", "func": "(function(){})", "nullProto": "Object.create(null)"}
+
+// implC07Proto: isPrototypeOf / getPrototypeOf / instanceof side by side.
+func implC07Proto(recv, arg string) string {
+	r, ok1 := c07Recv[recv]
+	a, ok2 := c07PArg[arg]
+	if !ok1 || !ok2 {
+		return "bad-op"
+	}
+	callArgs := r[0]
+	inst := "'-'"
+	v := a
+	if arg == "missing" {
+		v = "undefined"
+	} else {
+		callArgs += "," + a
+	}
+	if r[1] != "" {
+		inst = "(function(){try{return ((" + v + ") instanceof " + r[1] + ")?'t':'f';}catch(e){return (e instanceof TypeError)?'T':'E:'+e.name;}})()"
+	}
+	gpoCall := "Object.getPrototypeOf(" + a + ")"
+	src := "(function(){ var ipo, gpo;\n" +
+		"try{ ipo=Object.prototype.isPrototypeOf.call(" + callArgs + ")?'t':'f'; }catch(e){ ipo=(e instanceof TypeError)?'T':'E:'+e.name; }\n" +
+		"try{ var p=" + gpoCall + "; gpo=(p===null)?'N':(p===Object.prototype)?'po':(p===Number.prototype)?'pn':(p===String.prototype)?'ps':(p===Boolean.prototype)?'pb':(p===Function.prototype)?'pf':'?'; }catch(e){ gpo=(e instanceof TypeError)?'T':'E:'+e.name; }\n" +
+		"return 'clean:'+ipo+'|'+gpo+'|'+" + inst + "; })()"
+	return c07RunDirty(src)
+}
+
 func implC07(line string) string {
 	f := strings.Fields(line)
+	if len(f) == 3 && f[0] == "q" {
+		return implC07Proto(f[1], f[2])
+	}
 	if len(f) == 3 && f[0] == "m" {
 		return implC07Map(f[1], f[2])
 	}
@@ -1156,6 +1208,18 @@ func genC07(c *h.Ctx) {
 				}
 			}
 		}
+	}
+	// (2h) prototype-link observers: 7 receivers x 12 arguments, exhaustive
+	for recv := range c07Recv {
+		for arg := range c07PArg {
+			c.Add("q "+recv+" "+arg, "prototype-link")
+		}
+	}
+	// (2i) the key "0" also spelled as the number -0 (literal, negated variable, Math.round(-0.4)) in put / delete / defineProperty
+	for _, pre := range []string{"h C.-", "h C.- C.0", "h L/v.16.4", "h N.date"} {
+		c.Add(pre+" P.0.0.15.4 P.0.0.15.5 X.0.0.15 P.0.0.15.6 D.0.15.0.-.0.-.-.- P.0.0.15.4 X.0.0.15", "negzero-key")
+		c.Add(pre+" D.0.15.1.1.1.4.-.- D.0.15.-.-.-.5.-.- D.0.15.-.0.-.-.-.- X.0.0.15 P.0.0.15.6 X.0.0.15 X.0.0.15", "negzero-key")
+		c.Add(pre+" E.0 P.0.0.15.4 D.0.15.-.-.-.5.-.- D.0.15.-.-.-.5.-.- X.0.0.15", "negzero-key")
 	}
 	// (3) random histories
 	for i := 0; i < c.N(6000, 150000); i++ {
